@@ -115,6 +115,9 @@ func (sc *seqChunker) createChunk(ctx context.Context, tree mkvs.Tree, offset no
 	// Determine the next offset (not included in proof).
 	if it.Valid() {
 		it.Next()
+		if err := it.Err(); err != nil {
+			return hash.Hash{}, nil, fmt.Errorf("failed to iterate: %w", err)
+		}
 		nextOffset = it.Key()
 	}
 
